@@ -499,6 +499,12 @@ fn common(ctx: &Ctx, property: &'static str, rule: &str, floors: &[(&str, u64)],
         }
         rep.push(r);
     }
+    if sub.runs("ref-fans") && property == "C11" {
+        let cases = if ctx.cfg.replay.is_some() { vec![] } else { super::rootless::fan_cases(ctx.cfg.tier == crate::engine::Tier::Thorough) };
+        let mut r: SubReport = ctx.run_list("ref-fans", cases, true, super::rootless::fan_body);
+        r.notes.push("one clone call (clone_within / clone_into_external / clone_multiple_into_external / into a rootless DOM) over k pointers with k distinct outside targets, half of them in the destination, k around every power of two up to 4 097 (thorough 65 537); every Ref of every copy is checked against the three-way rule".into());
+        rep.push(r);
+    }
     if sub.runs("large") {
         let cases = if ctx.cfg.replay.is_some() { vec![] } else { large_histories(ctx.cfg.tier == crate::engine::Tier::Thorough) };
         let mut r: SubReport = ctx.run_list("large", cases, true, body_for(property));
